@@ -58,7 +58,8 @@ def run_case(case):
     ident = case['ident']
     nd = NDIM[cls]
     big = case.get('big', False)
-    nmax = (6 if nd < 3 else 5) if big else (4 if nd < 3 else 3)
+    deep = case.get('deep', False)
+    nmax = (6 if nd < 3 else 5) if big else ((6 if nd < 3 else 4) if deep else (4 if nd < 3 else 3))
     fam = case.get('family')
     if ident == 'tvd-unit':
         fam = 'uniform'
@@ -192,7 +193,7 @@ def plan(tier, seed):
         for ident in IDENTS:
             for rep in range(per):
                 cases.append({'cls': cls, 'ident': ident, 'seed': [seed, 5, ci, i], 'family': gen.FAMILIES[rep % 5] if rep % 2 else None,
-                              'ufam': ['sign', 'random', 'sign', 'const'][rep % 4], 'big': (rep % 6 == 5)})
+                              'ufam': ['sign', 'random', 'sign', 'const'][rep % 4], 'big': (rep % 6 == 5), 'deep': tier == 'thorough' and rep % 4 == 0})
                 i += 1
         for li, name in enumerate(LIMITERS + ['const1']):
             for rep in range(1 if tier == 'quick' else 12):
